@@ -1060,7 +1060,6 @@ class Authorization(Endpoint):
                         token_class="id_token",
                         grant=grant,
                         session_id=_sinfo["branch_id"],
-                        scope=request["scope"],
                         **kwargs,
                     )
                     # id_token = _context.idtoken.make(sid, **kwargs)
